@@ -106,6 +106,24 @@ fn hostile_history(rng: &mut Rng, n: u32, len: usize, quant: bool, reorder: bool
                 ops.push(Op::Restrict(a, care, care));
                 ops.push(Op::Not(a));
             }
+            // ZBDD set operations keyed by (operator, node, variable): the same operator on the same family for
+            // every variable, before and after a reordering (keys must use the variable, not its level)
+            9 | 10 if !quant => {
+                for v in 0..n {
+                    ops.push(Op::ZSet(rng.below(3) as u32, a, b, v));
+                }
+                if reorder {
+                    ops.push(Op::SetOrder(rng.perm(n as usize), rng.bool()));
+                }
+                let k = rng.below(3) as u32;
+                let mut vs = rng.perm(n as usize);
+                vs.extend(rng.perm(n as usize));
+                for v in vs {
+                    ops.push(Op::ZSet(k, a, b, v));
+                }
+                ops.push(Op::ZSet(3 + rng.below(3) as u32, a, b, 0));
+                ops.push(Op::ZSet(3 + rng.below(3) as u32, b, a, 0));
+            }
             10 if reorder => {
                 let op = *rng.pick(&ALL_BOPS);
                 ops.push(Op::Bin(op, a, b));
@@ -186,4 +204,77 @@ pub fn differential(ctx: &mut Ctx) {
     run_kind::<Bdd>(ctx, &mut rng, histories, len);
     run_kind::<Bcdd>(ctx, &mut rng, histories, len);
     run_kind::<Zbdd>(ctx, &mut rng, histories, len);
+}
+
+/// Substitution objects created concurrently: the substitution id is the only part of the
+/// apply-cache key that identifies the substitution, so ids must be unique across threads, and
+/// results of `substitute` with concurrently created substitutions must match the model.
+pub fn subst_ids(ctx: &mut Ctx) {
+    use oxidd::{BooleanFunction, FunctionSubst, ManagerRef, Subst, Substitution};
+    use std::collections::HashSet;
+    type F = oxidd::bdd::BDDFunction;
+    let threads = 4usize;
+    let per_thread = ctx.by_tier(20_000, 200_000);
+    let rounds = ctx.by_tier(2, 8);
+    let n = 4u32;
+    let mref = setup::<Bdd>(1 << 16, 1 << 12, 1, n);
+    let mut rng = ctx.rng(0xC06_5);
+    let f_t = crate::tt::Tt::random(n, &mut rng);
+    let f = build_shannon::<Bdd>(&mref, &f_t);
+    let vars: Vec<F> = (0..n).map(|v| mref.with_manager_shared(|m| F::var(m, v).unwrap())).collect();
+    println!("@@{{\"t\":\"case\",\"case\":\"c06 subst ids: {threads} threads x {per_thread} Subst::new per round\"}}");
+    for round in 0..rounds {
+        let handles: Vec<_> = (0..threads)
+            .map(|t| {
+                let f = f.clone();
+                let f_t = f_t.clone();
+                let vars = vars.clone();
+                std::thread::spawn(move || {
+                    let mut ids = Vec::with_capacity(per_thread);
+                    let mut bad: Vec<String> = Vec::new();
+                    let mut checked = 0u64;
+                    for i in 0..per_thread {
+                        // x0 := x_k with k depending on the thread: concurrently created substitutions differ
+                        let k = 1 + (t + i) % 3;
+                        let s = Subst::new(vec![0u32], vec![vars[k].clone()]);
+                        ids.push((&s).id());
+                        if i % 64 == 0 {
+                            let r = f.substitute(&s).unwrap();
+                            let mut model: Vec<Option<crate::tt::Tt>> = vec![None; 4];
+                            model[0] = Some(crate::tt::Tt::var(4, k as u32));
+                            let want = f_t.compose(&model);
+                            checked += 1;
+                            let got = interp_tt::<Bdd>(&r);
+                            if got != want && bad.len() < 3 {
+                                bad.push(format!("thread {t} substitution #{i} (x0 := x{k}): got {got} want {want}"));
+                            }
+                        }
+                    }
+                    (ids, bad, checked)
+                })
+            })
+            .collect();
+        let mut all: HashSet<u32> = HashSet::new();
+        let mut total = 0usize;
+        for h in handles {
+            let (ids, bad, checked) = h.join().unwrap();
+            total += ids.len();
+            all.extend(ids);
+            ctx.evals(checked);
+            for b in bad {
+                ctx.violation("bdd:substitute:concurrently-created-substitutions:wrong-table", format!("round {round}: {b}"));
+            }
+        }
+        ctx.eval();
+        if all.len() != total {
+            ctx.violation(
+                "substitution-ids-not-unique-across-threads",
+                format!("round {round}: {total} substitutions created on {threads} threads got only {} distinct ids", all.len()),
+            );
+        }
+        ctx.count("substitutions_created", total as u64);
+        ctx.distinct(("subst-ids", round, ctx.shard));
+        ctx.distinct(("subst-ids-total", total));
+    }
+    ctx.sample(|| format!("{threads} threads x {per_thread} Subst::new() per round, ids collected and compared; every 64th substitution applied to one function and checked against the model"));
 }
